@@ -125,6 +125,46 @@ def estimateUsingCParams (c : CPar) (stream : Bool) : Nat :=
   if rowSupported c.strategy then max (estimate (rpOfCParams c false stream)) (estimate (rpOfCParams c true stream))
   else estimate (rpOfCParams c false stream)
 
+/-! ### the public estimates from a parameter set (ZSTD_estimate{CCtx,CStream}Size_usingCCtxParams) whose cParams are all given -/
+
+/-- ZSTD_c_useRowMatchFinder as the caller left it in the parameter set -/
+inductive RowMode where
+  | auto | enable | disable
+deriving DecidableEq, Repr
+
+/-- window log above which ZSTD_resolveRowMatchFinderMode turns the automatic mode on (SIMD build: 14; the tie compares the
+estimates of the real build with this model, so another build would show up as a difference) -/
+def rowAutoWindowLog : Nat := 14
+
+/-- ZSTD_resolveRowMatchFinderMode on (unadjusted) cParams -/
+def resolveRow (m : RowMode) (c : CPar) : Bool :=
+  match m with
+  | .enable => true
+  | .disable => false
+  | .auto => rowSupported c.strategy && decide (c.windowLog > rowAutoWindowLog)
+
+/-- parameters the sizing routine is called with for match-finder flavour `useRow`: ZSTD_getCParamsFromCCtxParams (source size unknown)
+caps the hash log for the row finder unless the mode is explicitly disabled (automatic counts as enabled there); the long-distance
+switch, left automatic in such a parameter set, is NOT resolved by these estimates (they test `enableLdm == ZSTD_ps_enable`) -/
+def rpOfCCtxParams (c : CPar) (mode : RowMode) (useRow : Bool) (stream : Bool) : RP :=
+  let capped := decide (mode ≠ RowMode.disable) && rowSupported c.strategy
+  { rpOfCParams c useRow stream with
+    hashLog := if capped then capRowHash c.hashLog c.searchLog else c.hashLog,
+    ldm := false, ldmHashLog := 0, ldmBucketSizeLog := 0, ldmMinMatch := 0 }
+
+/-- ZSTD_estimateCCtxSize_usingCCtxParams (`stream = false`): with the mode left automatic and a strategy that has a row finder, the
+larger of the two flavours (the compressor resolves the automatic mode on parameters ADJUSTED to the source size, so either can be
+the one it uses); otherwise the flavour the mode resolves to.  ZSTD_estimateCStreamSize_usingCCtxParams (`stream = true`) sizes the
+flavour resolved on the unadjusted parameters only. -/
+def estimateUsingCCtxParams (c : CPar) (mode : RowMode) (stream : Bool) : Nat :=
+  if mode = RowMode.auto ∧ stream = false ∧ rowSupported c.strategy = true then
+    max (estimate (rpOfCCtxParams c mode true stream)) (estimate (rpOfCCtxParams c mode false stream))
+  else estimate (rpOfCCtxParams c mode (resolveRow mode c) stream)
+
+/-- the match-finder flavours a budget of `estimateUsingCCtxParams c mode stream` is made for -/
+def flavourCovered (c : CPar) (mode : RowMode) (stream : Bool) (useRow : Bool) : Bool :=
+  (decide (mode = RowMode.auto) && !stream && rowSupported c.strategy) || (useRow == resolveRow mode c)
+
 /-! ### the estimates by compression level -/
 
 def rowAt (tier level : Nat) : CPar := (adjRows.getD tier []).getD level ⟨0, 0, 0, 0, 0, 0, 0⟩
